@@ -22,7 +22,28 @@ pub const ENDS_2_18: [u64; 3] = {
     let s = a.as_slice();
     [s[1], s[262143], (s.len() == 262144) as u64]
 };
+/// every slot of a long constant default, checked inside the const evaluator (which executes the crate's code on the real types - a loop over
+/// thousands of slots is beyond CBMC's unwinding budget, not beyond rustc's): the element's default is not the zero pattern
+const fn all_default<N: generic_array::ArrayLength>(a: &GenericArray<crate::c19::ZD, N>) -> bool {
+    let s = a.as_slice();
+    let (mut ok, mut i) = (s.len() == N::USIZE, 0);
+    while i < s.len() {
+        ok &= s[i].a == 7 && s[i].b == 0x0903;
+        i += 1;
+    }
+    ok
+}
+pub const ALL_1024: bool = all_default(&GenericArray::<crate::c19::ZD, generic_array::typenum::U1024>::const_default());
+pub const ALL_2048: bool = all_default(&GenericArray::<crate::c19::ZD, generic_array::typenum::U2048>::const_default());
+pub const ALL_3072: bool = all_default(&GenericArray::<crate::c19::ZD, generic_array::typenum::Sum<generic_array::typenum::U2048, generic_array::typenum::U1024>>::const_default());
+pub const ALL_4096: bool = all_default(&<GenericArray<crate::c19::ZD, generic_array::typenum::U4096> as ConstDefault>::DEFAULT);
+pub const ALL_4097: bool = all_default(&GenericArray::<crate::c19::ZD, generic_array::typenum::Sum<generic_array::typenum::U4096, generic_array::typenum::U1>>::const_default());
 harness! { unwind 4, fn huge_const_defaults() {
+    assert!(ALL_1024 && ALL_2048 && ALL_3072 && ALL_4096 && ALL_4097, "a slot of a long constant default differs from the element's constant default");
+    // the same values at run time
+    let rt = GenericArray::<crate::c19::ZD, generic_array::typenum::U2048>::const_default();
+    let i = any_upto(2047);
+    assert!(rt[i].a == 7 && rt[i].b == 0x0903, "const_default() at run time differs from the const item");
     assert!(ENDS_2_20[0] == 0 && ENDS_2_20[1] == 0 && ENDS_2_20[2] == 1, "const_default() of a 2^20-element array");
     assert!(ENDS_2_19[0] == 0 && ENDS_2_19[1] == 0 && ENDS_2_19[2] == 1, "ConstDefault::DEFAULT of a 2^19-element array");
     assert!(ENDS_2_18[0] == 0 && ENDS_2_18[1] == 0 && ENDS_2_18[2] == 1, "const_default() of a 2^18-element array");
